@@ -64,6 +64,12 @@ class DictValue(GenericValue):
 
         assert self._old_value is not undefined
 
+        if not isinstance(self._old_value, dict) or not isinstance(
+            self._ast_node, (ast.Dict, type(None))
+        ):
+            # `snapshot(value)[key]` where value is not a dict, the test failed already with an exception
+            return
+
         if self._ast_node is None:
             values = [None] * len(self._old_value)
         else:
